@@ -147,6 +147,7 @@ def C03(prog: Program, run: Run, tier: str) -> None:
     run.floor("R-ROUND|", 10)
     run.add(findings.boundary_sampling(prog), "R-GUARDSEQ absence-of-guard clause behind a recorded finding (see known_findings.json)")
     run.add(round3.pad_before_align(prog), "R-ORDER padding precedes alignment")
+    run.add(round3.overlap_keeps_sign(prog), "R-SIGNROLE box_overlap passes the signed scale components")
     run.floor("R-AXIS|", 30)
 
 
@@ -162,6 +163,7 @@ def C04(prog: Program, run: Run, tier: str) -> None:
             "R-GUARDSEQ a tile's geobox is the base cropped to the tiling's region of the same index, derived GeoboxTiles crop geobox and tiling by the same region; R-SIBLING both locate() reject the same out-of-range pixels")
     run.add(extra.block_assembler(prog), "R-GUARDSEQ BlockAssembler indexes the request-relative window with full slices on non-spatial axes; reads each block through its own part of the 3-way intersection and writes through the window's part into a fill-initialised window")
     run.floor("R-API|", 20)
+    run.add(round3.variable_locate_searches(prog), "R-GUARDSEQ variable tiling locates by searching its offsets")
     run.floor("R-AXIS|", 25)
 
 
@@ -230,6 +232,8 @@ def C10(prog: Program, run: Run, tier: str) -> None:
     run.add(extra.warp_detour(prog), "R-EXHAUST pixels warped into a converted array are copied back; source/destination CRS and transform come from their own geobox")
     run.add(_only(axis.rule_axis(prog, {"overlap"}), "overlap:box_overlap", "overlap:compute_axis_overlap", "overlap:_can_paste"), AXIS_DESC)
     run.add(findings.paste_shape_aware(prog) + findings.gdal_identity_transform(prog), "R-GUARDSEQ absence-of-guard clause behind a recorded finding (see known_findings.json)")
+    run.add(round3.overlap_keeps_sign(prog), "R-SIGNROLE box_overlap passes the signed scale components")
+    run.add(round3.sign_preserving_returns(prog), "R-SIGNROLE snapping helpers keep the sign")
     run.floor("R-GUARDSEQ|", 12)
 
 
@@ -269,6 +273,7 @@ def C13(prog: Program, run: Run, tier: str) -> None:
     run.floor("R-FILL|", 12)
     run.add(findings.lonlat_footprint_validity(prog), "R-GUARDSEQ absence-of-guard clause behind a recorded finding (see known_findings.json)")
     run.add(round3.pix_bbox_half_open(prog), "R-ROUND tile box is the half-open slice extent")
+    run.add(round3.variable_locate_searches(prog), "R-GUARDSEQ variable tiling locates by searching its offsets")
     run.floor("R-API|", 15)
 
 
@@ -335,6 +340,7 @@ def C20(prog: Program, run: Run, tier: str) -> None:
     run.add([i for i in valueobj.rule_valueobj(prog, ["math:Bin1D"]) if "EQ" in i.construct], "R-VALUEOBJ Bin1D equality complete")
     run.add(_fwd(prog, {"math"}), FWD_DESC)
     run.floor("R-ROUND|", 6)
+    run.add(round3.sign_preserving_returns(prog), "R-SIGNROLE snapping helpers return values that carry the sign of their argument")
     run.floor("R-AXIS|", 25)
 
 
